@@ -46,7 +46,10 @@ ASSUMPTIONS = [
     "the contact index used as reference is nanite's own compute_poc applied "
     "to the 'before' force (the statement says 'estimated contact index')",
     "affinity of the slope correction judged to 1e-9 of its range; constant "
-    "offsets to 4 eps of the column scale"]
+    "offsets to 4 eps of the column scale; remaining baseline slope <= 1e-3 "
+    "of the original one (lmfit's line fit stops at its own tolerance); "
+    "turning point = independent re-computation of the farthest point in "
+    "normalised coordinates, +-2 samples"]
 
 EPS = np.finfo(float).eps
 OWNED = {"compute_tip_position": {"tip position"},
@@ -110,6 +113,20 @@ def fit_line(x, y):
     sc[sc == 0] = 1
     coef, *_ = np.linalg.lstsq(A / sc, y, rcond=None)
     return (A / sc) @ coef, coef[0] / sc[0]
+
+
+def farthest_point(tip, force, idp):
+    """independent reference for the turning point as the docstring defines
+    it: the point farthest from the contact point in the direction of
+    indentation, both axes normalised to [0, 1] between the contact point /
+    baseline and their extreme values (offset and unit free)"""
+    x = (tip[idp] - tip) / (tip[idp] - tip.min()) if tip.min() != tip[idp] \
+        else np.zeros_like(tip)
+    x = np.where(x > 0, x, 0.0)
+    yb = force - np.mean(force[:idp])
+    y = yb / yb.max()
+    y = np.where(y < np.std(y[:idp]), 0.0, y)
+    return int(np.argmax(x ** 2 + y ** 2))
 
 
 def judge(rec, step, kwargs, before, after, k, innate_tip, case):
@@ -214,12 +231,11 @@ def judge(rec, step, kwargs, before, after, k, innate_tip, case):
                           "baseline correction reaches sample %d, contact "
                           "index is %d" % (L, idp), case)
             else:
-                lo, hi = sorted([int(np.argmax(fb)), int(np.argmin(tip))])
-                m = max(2, int(.01 * n))   # noise moves the extrema a little
-                rec.check(idp <= L and lo - m <= L <= hi + m,
+                far = max(2, farthest_point(tip, fb, idp))
+                rec.check(abs(L - far) <= 2,
                           "correct_force_slope/approach-region-extent",
-                          "approach correction reaches sample %d, force "
-                          "maximum / deepest point at %d / %d" % (L, lo, hi),
+                          "approach correction reaches sample %d, the "
+                          "farthest point (turning point) is %d" % (L, far),
                           case)
         if nz.size:
             lin, _ = fit_line(absc[:L], d[:L])
@@ -236,7 +252,7 @@ def judge(rec, step, kwargs, before, after, k, innate_tip, case):
             _, sb = fit_line(absc[:idp], fb[:idp])
             _, sa = fit_line(absc[:idp], fa[:idp])
             floor = 1e-9 * fscale / (float(np.ptp(absc[:idp])) or 1e-300)
-            rec.check(abs(sa) <= 1e-6 * abs(sb) + floor,
+            rec.check(abs(sa) <= 1e-3 * abs(sb) + floor,
                       "correct_force_slope/baseline-trend-not-removed",
                       "baseline slope before %r, after %r" % (sb, sa), case)
     elif step == "correct_split_approach_retract":
@@ -259,13 +275,16 @@ def judge(rec, step, kwargs, before, after, k, innate_tip, case):
                       "%d switches, first %d last %d" % (sw.size, seg[0],
                                                          seg[-1]), case)
             if sw.size == 1:
-                lo, hi = sorted([int(np.argmin(before["tip position"])),
-                                 int(np.argmax(before["force"]))])
-                m = max(2, int(.01 * n))   # noise moves the extrema a little
-                rec.check(lo - m <= sw[0] + 1 <= hi + m,
+                far = farthest_point(before["tip position"],
+                                     before["force"], int(idp0))
+                rec.check(abs(sw[0] + 1 - far) <= 2,
                           "split/switch-not-at-farthest-point",
-                          "switch at %d, deepest point / force maximum at "
-                          "%d / %d" % (sw[0] + 1, lo, hi), case)
+                          "switch at %d, farthest point from the contact "
+                          "point (normalised axes) at %d; deepest point %d, "
+                          "force maximum %d"
+                          % (sw[0] + 1, far,
+                             int(np.argmin(before["tip position"])),
+                             int(np.argmax(before["force"]))), case)
     elif step == "smooth_height":
         seg = after["segment"]
         for c in OWNED[step]:
@@ -303,11 +322,16 @@ def synthetic(rng):
     f = f + rng.normal(0, Fmax / snr, N) \
         + tilt * Fmax * (data["tip position"] - zmax) / (zmin - zmax) \
         + drift * Fmax * np.linspace(0, 1, N) \
-        + float(rng.uniform(-.3, .3)) * Fmax
-    lag = int(rng.choice([0, 0, 3, 15]))
+        + float(rng.choice([rng.uniform(-.3, .3), rng.uniform(-4, 4)])) * Fmax
+    lag = int(rng.choice([0, 0, 3, 15, 25]))
     seg = data["segment"].copy()
     if lag:
         seg[n - lag:] = 1          # direction flips before deepest point
+    flag = int(rng.choice([0, 0, 0, 10, 25])) if n >= 700 else 0
+    if flag:
+        # the force lags behind the tip position (force maximum after the
+        # deepest point)
+        f = np.concatenate([np.full(flag, f[0]), f[:-flag]])
     spacing = (zmax - zmin) / n
     # physically sensible cantilever: maximum deflection 5-30 % of the
     # travel, but stiff enough that the force noise does not shake the height
@@ -324,7 +348,7 @@ def synthetic(rng):
             + (rng.normal(0, hnoise, N) if hnoise else 0)
     with_tip = bool(rng.random() < .25)
     desc = {"model": mk, "n": n, "snr": snr, "tilt": tilt, "drift": drift,
-            "lag": lag, "height_noise_over_spacing": hnoise / spacing,
+            "lag": lag, "force_lag": flag, "height_noise_over_spacing": hnoise / spacing,
             "with_tip": with_tip}
     desc["spring_constant"] = k_spring
     return (lambda: gen.make_indentation(data, with_tip=with_tip,
